@@ -28,24 +28,6 @@ Definition part (n : Z) (i : Z) : Z := (n / 10 ^ (4 * i)) mod 10000.
 Inductive cte := TE (field : int) (terms : list int).          (* back index terms entry *)
 Inductive cse := SE (field : int) (pos : list int).            (* back index stored entry *)
 
-Inductive crow :=
-| RB (id : int) (terms : list cte) (stored : list cse)         (* back index row *)
-| RD (n : int)                          (* dictionary row:  field, term, count *)
-| RI (n : int)                          (* internal row:    key, value *)
-| RS (n : int) (pos : list int)         (* stored row:      id, field, value; array positions *)
-| RT (n : int).                         (* term freq row:   field, term, id, freq *)
-
-Definition row_of (r : crow) : row :=
-  match r with
-  | RB id terms stored =>
-      (KBack (zi id), VBack (map (fun e => match e with TE f ts => (zi f, map zi ts) end) terms)
-                            (map (fun e => match e with SE f p => (zi f, map zi p) end) stored))
-  | RD n => let z := zi n in (KDict (part z 2) (part z 1), VDict (part z 0))
-  | RI n => let z := zi n in (KInternal (part z 1), VInternal (part z 0))
-  | RS n p => let z := zi n in (KStored (part z 2) (part z 1) (map zi p), VStored (part z 0))
-  | RT n => let z := zi n in (KTerm (part z 3) (part z 2) (part z 1), VTerm (part z 0))
-  end.
-
 (* what the real analysis produced for one (id, version): taken from the rows of a scratch index
    into which that version alone was indexed *)
 Inductive cdf := DF (field : int) (tfs : list int).            (* indexed field: each term, freq packed *)
@@ -61,15 +43,53 @@ Definition doc_of (d : cdoc) : udoc :=
 
 Inductive cdv := DV (id ver : int) (d : cdoc).                 (* analysis result of one indexed version *)
 
+Inductive crow :=
+| RB (id : int) (terms : list cte) (stored : list cse)         (* back index row *)
+| RBv (id ver : int)                    (* back index row whose entries are, verbatim, those of the analysed version (id, ver) *)
+| RD (n : int)                          (* dictionary row:  field, term, count *)
+| RI (n : int)                          (* internal row:    key, value *)
+| RS (n : int) (pos : list int)         (* stored row:      id, field, value; array positions *)
+| RT (n : int).                         (* term freq row:   field, term, id, freq *)
+
+Definition doctab := list (Z * Z * udoc).
+
+Fixpoint doc_lookup (tab : doctab) (id ver : Z) : option udoc :=
+  match tab with
+  | [] => None
+  | (i, v, d) :: tab' => if (i =? id) && (v =? ver) then Some d else doc_lookup tab' id ver
+  end.
+
+Definition row_of (tab : doctab) (r : crow) : row :=
+  match r with
+  | RB id terms stored =>
+      (KBack (zi id), VBack (map (fun e => match e with TE f ts => (zi f, map zi ts) end) terms)
+                            (map (fun e => match e with SE f p => (zi f, map zi p) end) stored))
+  | RBv id ver =>
+      (KBack (zi id), match doc_lookup tab (zi id) (zi ver) with
+                      | Some d => doc_back_val d
+                      | None => VInternal (-1)          (* no such version: matches nothing *)
+                      end)
+  | RD n => let z := zi n in (KDict (part z 2) (part z 1), VDict (part z 0))
+  | RI n => let z := zi n in (KInternal (part z 1), VInternal (part z 0))
+  | RS n p => let z := zi n in (KStored (part z 2) (part z 1) (map zi p), VStored (part z 0))
+  | RT n => let z := zi n in (KTerm (part z 3) (part z 2) (part z 1), VTerm (part z 0))
+  end.
+
 Inductive cop :=
 | OIndex (id ver : int)
 | ODelete (id : int)
 | OSetInt (key value : int)
 | ODelInt (key : int).
 
+(* A dump is either written out in full, or (to keep the cases files small) as the difference to
+   the FIRST dump of the previous step: the rows that disappeared and the rows that are new or
+   changed; [dm_nrows] is the number of rows of the whole dump either way. *)
 Record cdump := mkDump {
   dm_stores : list int;                  (* which KV stores produced exactly this dump *)
-  dm_rows : list crow;
+  dm_full : bool;
+  dm_gone : list crow;                   (* delta only: rows of the previous dump that are gone (keys matter) *)
+  dm_rows : list crow;                   (* full: every row; delta: the new and the changed rows *)
+  dm_nrows : int;
   dm_count : int                         (* DocCount() *)
 }.
 
@@ -81,14 +101,6 @@ Record cstep := mkStep {
 
 Inductive case :=
 | CUdc (docs : list cdv) (steps : list cstep).
-
-Definition doctab := list (Z * Z * udoc).
-
-Fixpoint doc_lookup (tab : doctab) (id ver : Z) : option udoc :=
-  match tab with
-  | [] => None
-  | (i, v, d) :: tab' => if (i =? id) && (v =? ver) then Some d else doc_lookup tab' id ver
-  end.
 
 Definition doc_ops (ops : list cop) : list (Z * option Z) :=
   flat_map (fun o => match o with
@@ -146,16 +158,26 @@ Definition rowval_eqb (a b : rowval) : bool :=
 
 Definition row_eqb (a b : row) : bool := rowkey_eqb (fst a) (fst b) && rowval_eqb (snd a) (snd b).
 
-Definition dump_ok (s : ustore) (d : cdump) : bool :=
-  list_eqb row_eqb (u_rows s) (map row_of (dm_rows d)) && (u_count s =? zi (dm_count d)).
+(* the rows the real index held, given the rows [prev] of the first dump of the previous step *)
+Definition dump_rows (tab : doctab) (prev : rows) (d : cdump) : rows :=
+  if dm_full d then map (row_of tab) (dm_rows d)
+  else apply_sets (map (row_of tab) (dm_rows d)) (apply_dels (map (fun r => fst (row_of tab r)) (dm_gone d)) prev).
 
-Fixpoint check_steps (tab : doctab) (s : ustore) (steps : list cstep) : bool :=
+Definition dump_ok (tab : doctab) (s : ustore) (prev : rows) (d : cdump) : bool :=
+  let r := dump_rows tab prev d in
+  list_eqb row_eqb (u_rows s) r && (Z.of_nat (length r) =? zi (dm_nrows d)) && (u_count s =? zi (dm_count d)).
+
+Definition next_prev (tab : doctab) (prev : rows) (ds : list cdump) : rows :=
+  match ds with d :: _ => dump_rows tab prev d | [] => prev end.
+
+Fixpoint check_steps (tab : doctab) (s : ustore) (prev : rows) (steps : list cstep) : bool :=
   match steps with
   | [] => true
   | st :: rest =>
       match apply_step tab s st with
       | None => false                    (* an indexed version without its analysis result *)
-      | Some s' => forallb (dump_ok s') (st_dumps st) && check_steps tab s' rest
+      | Some s' => forallb (dump_ok tab s' prev) (st_dumps st) &&
+                   check_steps tab s' (next_prev tab prev (st_dumps st)) rest
       end
   end.
 
@@ -166,24 +188,37 @@ Definition check (c : case) : bool :=
   match c with
   | CUdc docs steps =>
       let tab := tab_of docs in
-      forallb (fun e => wf_doc (snd e)) tab && check_steps tab udc_empty steps
+      forallb (fun e => wf_doc (snd e)) tab && check_steps tab udc_empty [] steps
   end.
 
-(* what the model expected: the row store and docCount after every step (None from the step on
-   at which an analysis result is missing) *)
-Fixpoint explain_steps (tab : doctab) (s : ustore) (steps : list cstep) : list (option (rows * Z)) :=
+(* what the model expected.  First, per step: docCount, and per dump of the step which stores
+   produced it, whether it agrees, the rows only the real index has and the rows only the model
+   has (None from the step on at which an analysis result is missing); then the model's whole
+   row store after every step. *)
+Definition rows_diff (a b : rows) : rows :=
+  filter (fun r => negb (existsb (row_eqb r) b)) a.
+
+Fixpoint explain_steps (tab : doctab) (s : ustore) (prev : rows) (steps : list cstep)
+  : list (option (Z * list (list Z * bool * rows * rows))) * list rows :=
   match steps with
-  | [] => []
+  | [] => ([], [])
   | st :: rest =>
       match apply_step tab s st with
-      | None => [None]
-      | Some s' => Some (u_rows s', u_count s') :: explain_steps tab s' rest
+      | None => ([None], [])
+      | Some s' =>
+          let '(v, r) := explain_steps tab s' (next_prev tab prev (st_dumps st)) rest in
+          (Some (u_count s',
+                 map (fun d => (map zi (dm_stores d), dump_ok tab s' prev d,
+                                rows_diff (dump_rows tab prev d) (u_rows s'),      (* only in the real index *)
+                                rows_diff (u_rows s') (dump_rows tab prev d)))     (* only in the model *)
+                     (st_dumps st)) :: v,
+           u_rows s' :: r)
       end
   end.
 
-Definition explain (c : case) : list bool * list (option (rows * Z)) :=
+Definition explain (c : case) :=
   match c with
   | CUdc docs steps =>
       let tab := tab_of docs in
-      (map (fun e => wf_doc (snd e)) tab, explain_steps tab udc_empty steps)
+      (map (fun e => wf_doc (snd e)) tab, explain_steps tab udc_empty [] steps)
   end.
